@@ -70,7 +70,8 @@ def tamper_cases(g, tier, packets):
         base = dict(c); base['c'] = ct; base['inplace'] = 1 if g.random() < 0.4 else 0; base['align'] = g.randint(0, 7)
         base.pop('m_null', None)
         out.append((dict(base), 'valid'))
-        full = (idx % 12 == 0) or tier == 'thorough'
+        # tag-only packets (empty message) always get the full set: with SIV the tag is also the IV, so a structured tag difference reaches the comparison unchanged only there
+        full = (idx % 12 == 0) or tier == 'thorough' or n == 8
         bits = range(64) if full else g.sample(range(64), 3)
         for bit in bits:
             d = dict(base); d['c'] = ct[:n - 8] + flip(ct[n - 8:], bit); out.append((d, 'tagbit%d' % bit))
